@@ -323,6 +323,9 @@ Definition net_send_commands_code : list dstmt :=
   [DIf (DNot (DEq "d.CurrentPriv" "d.DefaultDesiredPriv")) [DAssign "err" "d.AcquirePriv(d.DefaultDesiredPriv)"; DIf (DNot (DEq "err" "nil")) [DReturn "nil, fmt.Errorf( ""%w: failed acquiring default desired privilege level"", util.ErrPrivilegeError, )"] []] []; DReturn "d.Driver.SendCommands(commands, opts...)"].
 Definition net_send_configs_code : list dstmt :=
   [DCall "NewOperation(opts...)"; DIf (DNot (DEq "err" "nil")) [DReturn "nil, err"] []; DAssign "targetPriv" "op.PrivilegeLevel"; DIf (DEq "targetPriv" """""") [DAssign "targetPriv" "defaultConfigurationPrivLevel"] []; DAssign "err" "d.AcquirePriv(targetPriv)"; DIf (DNot (DEq "err" "nil")) [DReturn "nil, err"] []; DReturn "d.Driver.SendCommands(configs, opts...)"].
+(* driver/network/acquirepriv.go Driver.AcquirePriv *)
+Definition acquire_priv_code : list dstmt :=
+  [DAssign "ok" "ok of d.PrivilegeLevels[target]"; DIf (DNot (DAtom "ok")) [DReturn "error"] []; DRange "_" "forever" [DCall "d.Driver.GetPrompt()"; DIf (DNot (DEq "err" "nil")) [DReturn "err"] []; DCall "d.processAcquirePriv( target, currentPrompt, )"; DIf (DNot (DEq "err" "nil")) [DReturn "err"] []; DSwitch "action" [(["noAction"], [DReturn "nil"]); (["escalateAction"], [DAssign "err" "d.escalate(next)"]); (["deescalateAction"], [DAssign "err" "d.deescalate(next)"])]; DIf (DNot (DEq "err" "nil")) [DReturn "err"] []; DCall "count++"; DIf (DAtom "count > len(d.PrivilegeLevels)*2") [DReturn "error"] []]].
 (* the option loops of the constructors (C19) *)
 Definition option_loops : list (string * dstmt) := [
   ("driver/generic/driver.go NewDriver",
